@@ -54,8 +54,10 @@ Accept(e) ==
          /\ IF rec THEN x.pend = EmptyBag /\ e.get = GetOut(x)          \* callbacks = published (as bags); getter = last published
                    ELSE e.get \in (IF x.dlv = EmptyBag THEN {cfg.init} ELSE BagToSet(x.dlv))
          /\ LeakyOK(e)
-    [] e.a = "close" -> e.err = ""
-    [] e.a = "cret" -> e.err = ""
+    \* Close reports what the injected pacer's Close returned (inj: it was made to fail); a second Close is harmless
+    [] e.a = "close" -> e.err = (IF "inj" \in DOMAIN e /\ e.inj THEN "injected pacer close failure" ELSE "")
+    [] e.a = "close2" -> e.err = ""
+    [] e.a = "cret" -> e.err = (IF "inj" \in DOMAIN e /\ e.inj THEN "injected pacer close failure" ELSE "")
     [] e.a = "wret" -> /\ e.res \in {"ok", "closed"}
                        /\ (e.res = "closed" => closing)                              \* never the closed error before Close was called
                        /\ (e.f \in DOMAIN after /\ after[e.f] => e.res = "closed")   \* a call begun after Close returned
